@@ -109,10 +109,12 @@ Definition reg_check (v : tval) : bool :=
 (* ---- client mapping, whole-connection histories
    ops: [0] open (carried through to a running tunnel, or refused), [1;k] the k-th arrival's connection ends,
         [2] open whose tunnel is closed by its peer between RegisterTunnel and Start (or refused),
-        [3] open while the user-quota lookup fails (limit source = user quota) *)
+        [3] open while the user-quota lookup fails (limit source = user quota),
+        [4;k] the k-th arrival's tunnel is closed from outside and its localConn.Close() parks, [5;k] that Close returns *)
 Definition m_setting_up (pc : mpc) : bool :=
   match pc with MStart _ | MLoaded _ _ | MActive _ | MEarlyClosed => true | _ => false end.
-Definition m_outcome (pc : mpc) : N := match pc with MLive => 1 | MRefused => 2 | MDone => 3 | _ => 0 end%N.
+Definition m_closing (pc : mpc) : bool := match pc with MLive | MClosing => true | _ => false end.
+Definition m_outcome (pc : mpc) : N := match pc with MLive => 1 | MRefused => 2 | MDone => 3 | MClosing => 5 | _ => 0 end%N.
 Definition op_kind (o : tval) : N := vn (vnth 0 o).
 Fixpoint m_replay v max (s : msh * list mpc) (next : nat) (ops counts : list tval) : bool * (msh * list mpc) :=
   match ops, counts with
@@ -120,8 +122,18 @@ Fixpoint m_replay v max (s : msh * list mpc) (next : nat) (ops counts : list tva
   | o :: os, c :: cs =>
       let '(s', next') :=
         if N.eqb (op_kind o) 1
-        then (match thread_at s (vnat (vnth 1 o)) with
+        then (match thread_at s (vnat (vnth 1 o)) with                      (* the connection ends: close begins and completes *)
+              | Some MLive => step_while (mstep v max) m_closing 2 s (vnat (vnth 1 o))
+              | _ => s
+              end, next)
+        else if N.eqb (op_kind o) 4
+        then (match thread_at s (vnat (vnth 1 o)) with                      (* Tunnel.Close begins; localConn.Close() parked *)
               | Some MLive => sys_step _ _ (mstep v max) s (vnat (vnth 1 o))
+              | _ => s
+              end, next)
+        else if N.eqb (op_kind o) 5
+        then (match thread_at s (vnat (vnth 1 o)) with                      (* the parked Close returns *)
+              | Some MClosing => sys_step _ _ (mstep v max) s (vnat (vnth 1 o))
               | _ => s
               end, next)
         else (* [3]: GetUserQuota() fails for this arrival — the limit is unknown to it: the "unlimited, only count" branch *)
@@ -133,7 +145,8 @@ Fixpoint m_replay v max (s : msh * list mpc) (next : nat) (ops counts : list tva
   end.
 Definition mapseq_check (v : tval) : bool :=
   let ops := vl (vnth 3 v) in
-  let arrivals := map (fun o => MStart (N.eqb (op_kind o) 2)) (filter (fun o => negb (N.eqb (op_kind o) 1)) ops) in
+  let arrivals := map (fun o => MStart (N.eqb (op_kind o) 2))
+                      (filter (fun o => N.eqb (op_kind o) 0 || N.eqb (op_kind o) 2 || N.eqb (op_kind o) 3) ops) in
   let '(ok, s) := m_replay (dec_variant (vnth 1 v)) (vnat (vnth 2 v)) ({| counter := 0; live := 0 |}, arrivals) 0 ops (vl (vnth 4 v)) in
   ok && all2 (fun pc o => N.eqb (m_outcome pc) (vn o)) (snd s) (vl (vnth 5 v)).
 
@@ -245,6 +258,16 @@ Definition qlist_check (v : tval) : bool :=
   && Nat.eqb counted (vnat (vnth 4 v)) && Nat.eqb (length (i_stored (fst s))) (vnat (vnth 5 v))
   && Nat.eqb (Nat.min (vnat (vnth 6 v)) (max - counted)) (vnat (vnth 7 v)).
 
+(* ---- a create of the client while an activation of one of its codes holds the claim:
+   [7; max; outcomes] — the client is at its limit; ops in order: activation claims (parked before it writes the code back),
+   create, activation finishes, create; outcomes of the two creates (1 accepted, 2 refused) and active counts after each op *)
+Definition qclaim_check (v : tval) : bool :=
+  let max := vnat (vnth 1 v) in
+  let s := krun true max {| k_active := max; k_claimed := 0 |} [KActivate; KCreate; KCreate] [0; 1; 0; 2] in
+  let code pc := match pc with KCreated => 1 | KRefusedK => 2 | _ => 0 end%N in
+  all2 (fun pc o => N.eqb (code pc) (vn o)) (skipn 1 (snd s)) (vl (vnth 2 v))
+  && Nat.eqb (k_active (fst s)) (vnat (vnth 3 v)).
+
 Definition check (v : tval) : bool :=
   match vn (vnth 0 v) with
   | 0 => server_check v
@@ -254,6 +277,7 @@ Definition check (v : tval) : bool :=
   | 4 => qfault_check v
   | 5 => regsched_check v
   | 6 => qlist_check v
+  | 7 => qclaim_check v
   | _ => false
   end%N.
 
